@@ -302,6 +302,35 @@ def rt_pass(o, exe, sub, args, timeout, crash_is_violation=None, prefix="", name
     return rep
 
 
+def gen_corpus(seed, tier):
+    """Run the seeded program generator; returns the directory holding corpus.rs."""
+    d = os.path.join(WORK, "gen", "%d-%s" % (seed, tier))
+    os.makedirs(d, exist_ok=True)
+    tmp = d + ".tmp-%d" % os.getpid()
+    os.makedirs(tmp, exist_ok=True)
+    p = subprocess.run(["/usr/bin/python3", os.path.join(VERIF, "gen", "corpus.py"), str(seed), tier, tmp], stdout=subprocess.PIPE, stderr=subprocess.PIPE, text=True,
+                       env={"PYTHONDONTWRITEBYTECODE": "1", "PATH": "/usr/bin:/bin"})
+    if p.returncode != 0:
+        shutil.rmtree(tmp, ignore_errors=True)
+        raise Inconclusive("corpus generator failed: %s" % p.stderr[-800:])
+    # only touch the file when the content changed, so that cargo does not rebuild needlessly
+    for f in ("corpus.rs", "corpus.json"):
+        new = open(os.path.join(tmp, f)).read()
+        dst = os.path.join(d, f)
+        if not os.path.exists(dst) or open(dst).read() != new:
+            with open(dst, "w") as fh:
+                fh.write(new)
+    shutil.rmtree(tmp, ignore_errors=True)
+    return d
+
+
+def build_rtc(o, features=()):
+    d = gen_corpus(o.seed, o.tier)
+    o.extra["corpus"] = json.load(open(os.path.join(d, "corpus.json")))
+    tag = "rtc-%d-%s%s" % (o.seed, o.tier, ("-" + "+".join(features)) if features else "")
+    return build_rt(features, extra_env={"VERIF_GEN": d}, tag=tag, package="rtc")
+
+
 ASAN_FLAGS = "-Zsanitizer=address -Cforce-frame-pointers=yes " + CFG_FLAGS
 
 
@@ -415,6 +444,100 @@ def p_decode(o):
         miri_pass(o, "decode", ["--cases", 10_000, "--light", 6], shards=NCPU, secs=300, key="C14/miri-ub")
 
 
+HIST_RULE = ("registration histories over the compiled-in type corpus (core corpus: every built-in impl family, alias forms, hand-written cyclic / parameter-only / diamond types, "
+             "generated derived definitions; plus seeded type expressions): 1-24 ops of register_type / register_types / map_into_portable over a small working set with heavy repetition, "
+             "aliases first or target first; the first |corpus| cases walk every entry (with its aliases) deterministically. Non-trivial: final registry has >=2 entries; distinct = distinct op sequences.")
+
+
+def p_hist(o):
+    exe = build_rtc(o)
+    o.replay_base = {"sub": "hist", "bin": "rtc"}
+    crash = None
+    if o.prop == "C02":
+        crash = ("C02/registration-does-not-terminate", "registering a (possibly cyclic) type crashed the process (stack overflow / abort)")
+    rt_pass(o, exe, "hist", ["--cases", sizes(o.tier, 30_000, 1_500_000), "--max-secs", sizes(o.tier, 60, 400)], timeout=sizes(o.tier, 400, 1800), crash_is_violation=crash)
+    o.rule = HIST_RULE
+    floor = ["cyclic_type_registered", "type_first_met_as_type_parameter", "op_register_type", "op_register_types", "op_map_into_portable_type", "op_map_into_portable_params"] + \
+            ["def_" + k for k in ("composite", "variant", "sequence", "array", "tuple", "primitive", "compact", "bitsequence")]
+    if o.prop == "C01":
+        floor += ["producer_from_registry", "producer_decode", "producer_json", "producer_retain", "registries_checked_in_place", "prefix_replays_checked"]
+        # the fourth producer: the runtime builder
+        exe2 = build_rt()
+        rt_pass(o, exe2, "table", ["--cases", sizes(o.tier, 100_000, 3_000_000), "--max-secs", sizes(o.tier, 30, 200)], timeout=sizes(o.tier, 300, 1200), prefix="builder_")
+        if o.counter("builder_registries_checked", "builder_") <= 0:
+            o.inconclusive.append("coverage floor missed: no registry produced by the runtime builder was checked")
+    if o.prop == "C02":
+        floor += ["roots_checked", "mapped_types_checked", "cycles_cut"]
+    if o.prop == "C05":
+        floor += ["reregistrations_checked", "identity_pairs_checked", "alias_pairs_sharing_id", "entry_count_checks", "instrumented_evaluations_seen"]
+    if o.prop == "C11":
+        floor += ["prefix_checks", "returned_ids_rechecked", "replays_compared", "permutations_compared"]
+    o.need(floor)
+    o.assumptions = ["TypeId::of::<<T as TypeInfo>::Identity>() computed in the harness is the declared identity", "canonical identities are computed by the generator from the alias rules of C05 (never from MetaType)",
+                     "hook events (when available) only add visibility; boundary monitors decide"]
+    if o.prop == "C11":
+        # cross-process determinism: two separate processes print digests of the same histories
+        outs = []
+        for k in range(2):
+            rep, rc, err = run_rt(exe, ["digest", "--prop", "C11", "--seed", o.seed, "--tier", o.tier, "--cases", 400], 600, "C11-digest-%d" % k)
+            if rep is None:
+                o.inconclusive.append("digest process %d failed: %s" % (k, err[-300:]))
+                return
+            outs.append(rep)
+        if outs[0]["sets"].get("digest") != outs[1]["sets"].get("digest"):
+            o.violations.append({"key": "C11/cross-process-differs", "msg": "two processes replaying the same 400 histories produced different registry bytes (digest %s vs %s)" % (outs[0]["sets"].get("digest"), outs[1]["sets"].get("digest")), "case": {"seed": o.seed}})
+            o.violation_count += 1
+        o.extra["cross_process_digest"] = outs[0]["sets"].get("digest")
+
+
+def p_schema(o):
+    exe = build_rt(("schema",))
+    o.replay_base = {"sub": "schema", "features": ["schema"]}
+    d = os.path.join(WORK, "schema-%d" % os.getpid())
+    shutil.rmtree(d, ignore_errors=True)
+    try:
+        rep = rt_pass(o, exe, "schema", ["--cases", sizes(o.tier, 4_000, 120_000), "--emit-dir", d, "--shards", NCPU], timeout=sizes(o.tier, 300, 1200))
+        if rep is None or rep.get("violation_count"):
+            return
+        procs = []
+        for k in range(NCPU):
+            procs.append(subprocess.Popen(["python3-vt", os.path.join(VERIF, "driver", "validate_schema.py"), os.path.join(d, "schema.json"), os.path.join(d, "docs-%d.jsonl" % k)],
+                                          stdout=subprocess.PIPE, stderr=subprocess.PIPE, text=True, env=base_env()))
+        validated = 0
+        for k, p in enumerate(procs):
+            try:
+                so, se = p.communicate(timeout=sizes(o.tier, 600, 2400))
+            except subprocess.TimeoutExpired:
+                p.kill()
+                o.inconclusive.append("watchdog: schema validator shard %d timed out" % k)
+                continue
+            try:
+                r = json.loads(so.strip().splitlines()[-1])
+            except Exception:
+                o.inconclusive.append("schema validator shard %d failed: %s" % (k, se[-400:]))
+                continue
+            validated += r["validated"]
+            if not r["schema_ok"]:
+                o.violations.append({"key": "C19/schema-invalid", "msg": r["errors"][0]["message"], "case": None})
+                o.violation_count += 1
+            for e in r["errors"]:
+                if e.get("case") is None:
+                    continue
+                o.violations.append({"key": "C19/document-rejected", "msg": "schema rejects a serialised registry at /%s: %s" % (e["path"], e["message"]), "case": e})
+                o.violation_count += 1
+            o.extra["schema_draft"] = r.get("draft")
+        o.extra["documents_validated"] = validated
+        if validated != o.evaluations:
+            o.inconclusive.append("validated %d documents but %d were emitted" % (validated, o.evaluations))
+    finally:
+        shutil.rmtree(d, ignore_errors=True)
+    o.rule = ("serialised registries: RegGen (both modes, every definition kind, optional parts absent/present/empty, skipped type parameter => null, ids up to u32::MAX, index 255, hostile strings) "
+              "+ registries frozen from the compiled-in type corpus; validated by python jsonschema Draft7Validator against schemars::schema_for!(PortableRegistry). "
+              "Non-trivial: >=1 entry; distinct = distinct documents.")
+    o.need(["def_composite", "def_variant", "def_sequence", "def_array", "def_tuple", "def_primitive", "def_compact", "def_bitsequence", "skipped_type_param_null", "empty_path_omitted", "id_u32_max"])
+    o.assumptions = ["python jsonschema 4.26 Draft-07 validator is the judge of 'validates'", "serde_json output is what a consumer validates"]
+
+
 # ---------------------------------------------------------------------------------------------
 # property table
 
@@ -478,6 +601,10 @@ def p_ident(o):
 
 
 PROPS = {
+    "C01": dict(fn=p_hist, level="exploration"),
+    "C02": dict(fn=p_hist, level="exploration"),
+    "C05": dict(fn=p_hist, level="exploration"),
+    "C11": dict(fn=p_hist, level="exploration"),
     "C06": dict(fn=p_codec, level="exploration"),
     "C07": dict(fn=p_codec, level="exploration"),
     "C08": dict(fn=p_codec, level="exploration"),
@@ -485,6 +612,7 @@ PROPS = {
     "C14": dict(fn=p_decode, level="fault_enumeration"),
     "C12": dict(fn=p_table, level="exploration"),
     "C18": dict(fn=p_ident, level="exploration"),
+    "C19": dict(fn=p_schema, level="exploration"),
 }
 
 
@@ -495,7 +623,11 @@ def replay(prop, path):
     if sub is None or not isinstance(case, dict) or "case" not in case:
         print(json.dumps(rp, indent=1))
         return 0
-    exe = build_rt(tuple((rp.get("replay") or {}).get("features", ())))
+    if (rp.get("replay") or {}).get("bin") == "rtc":
+        o = Outcome(prop, rp["tier"], rp["seed"], "exploration")
+        exe = build_rtc(o, tuple((rp.get("replay") or {}).get("features", ())))
+    else:
+        exe = build_rt(tuple((rp.get("replay") or {}).get("features", ())))
     full = [sub, "--prop", prop, "--seed", rp["seed"], "--tier", rp["tier"], "--case", case["case"]] + list((rp.get("replay") or {}).get("args", []))
     rep, rc, err = run_rt(exe, full, 600, "replay")
     print(json.dumps({"recorded": {"key": rp["key"], "message": rp["message"]}, "replayed": (rep or {}).get("violations"), "rc": rc, "stderr": err}, indent=1))
